@@ -117,7 +117,10 @@ def x1(run: Run, prog: Program, cy: CyProgram):
         if kf is None or pf is None:
             raise AnalysisError(f"sibling pair {kname}/{pname} vanished")
         pbody = py_stmts(pf.node.body)
-        ksites = _sites_by_quotient_role(kf.body)
+        # counting loops factored into cdef helpers are analysed in place
+        from .loopir import inline_value_helpers, fold_subcounters, name_inline_elements
+        kbody = name_inline_elements(fold_subcounters(inline_value_helpers(kf)))
+        ksites = _sites_by_quotient_role(kbody)
         psites = _sites_by_quotient_role(pbody)
         kbinds = {n: v[1] for n, v in kf.locals.items() if v[1] is not None}
         klists = _lists_cy(kf)
